@@ -457,6 +457,43 @@ fn c16_batches(tier: &str) -> Vec<Batch> {
     vec![Batch { name: "c16-main".into(), profile: p, runs: scale(tier, 20_000, 400_000), exec: exec_c16, strata: None }]
 }
 
+fn exec_c10(p: &Profile, cfg: &RunCfg) -> (RunOut, MonOut) {
+    let (out, _w, _s) = run_sm(p, cfg);
+    let mon = c10::monitor(&out);
+    (out, mon)
+}
+
+fn c10_batches(tier: &str) -> Vec<Batch> {
+    let mut p = c04_profile();
+    p.name = "c10".into();
+    p.apps_max = 4;
+    p.net = NetRates {
+        none: 600,
+        transport: 70,
+        timeout: 30,
+        user: 20,
+        drop_response: 30,
+        status: 80,
+        body_garbage: 0,
+        body_bitflip: 0,
+        body_truncate: 0,
+        etag_tamper: 50,
+        replay: 20,
+        forged: 50,
+        byzantine_doc: 50,
+        duplicate: 0,
+        retry_after: 30,
+    };
+    p.srv.app_outcome = [25, 60, 5, 5, 5];
+    p.srv.app_list = [40, 20, 15, 25];
+    p.srv.manifest_absent_permille = 200;
+    p.installer.plan_fail_permille = 120;
+    p.installer.app_result = [50, 25, 25];
+    p.policy.can_start = [60, 20, 20];
+    p.bad_url_permille = 0;
+    vec![Batch { name: "c10-main".into(), profile: p, runs: scale(tier, 20_000, 400_000), exec: exec_c10, strata: None }]
+}
+
 fn c01_batches(tier: &str) -> Vec<Batch> {
     vec![Batch { name: "c01-main".into(), profile: Profile::base("c01"), runs: scale(tier, 20_000, 600_000), exec: crate::cup::run_cup, strata: None }]
 }
@@ -682,6 +719,7 @@ pub fn all() -> Vec<PropDef> {
         def("C17", "the real client (RequestBuilder, CUP handler, parser, whole state machine) against the real mock_omaha_server::handle_request called in-process; service-URL variants, 1-3 apps, key configurations with latest/historical ids on either side, per-app response kinds, forced ETag, admin reconfigurations racing with exchanges; a case is one answered request; distinct = (configured kinds, cup, url)", vec!["requests outside the stated class (ping-only) are not sent in this profile", "the transport seam converts the absolute-form URI to origin-form, as an HTTP client does"], c17_batches),
         def("C18", "histories of install attempts (plan ids stable or fresh, per-app results, system app at any index, manifest version present or not) with crashes at drawn interactions, reboots into the target or another version and restart delays; metrics, call order and restart behaviour compared with a model of first-seen time, consecutive failed installs and the pending-reboot record; a case is one install or one restart; distinct = outcome signature", vec!["wall-clock jumps happen only between lifetimes; durations derived from a stored (microsecond) time are compared with 1 us tolerance", "an attempt cut by a crash may count or not", "when the system app is not part of the update the target version on record is not judged"], c18_batches),
         def("C19", "persistence path only: wall clocks at nanosecond granularity before/after the epoch, at and beyond the i64-microsecond limits, and hostile stored integers over the whole i64 range; every time the library stores (last contact, first seen, finish) must come back after a restart as the instant truncated toward the epoch at microsecond precision, be dropped exactly when it does not fit, and be presented and re-persisted unchanged when it was read from storage; exact (0 ns tolerance) duration comparisons; a case is one stored time round trip", vec!["the two-clock algebra and truncate_submicrosecond_walltime are pure functions reached by no simulated seam: not claimed (DESIGN.md 6.C19)"], c19_batches),
+        def("C10", "multi-app responses in any order with unknown ids and missing manifests x policy decisions x per-app installer result vectors x delivery outcome of each individual report (ok, transport error, HTTP error, forged); the sequence and contents of event-bearing requests of each check are compared with the path's prescription, lost-event accounting per report; a case is one completed check; distinct = (path, report sizes, installer results)", vec!["an event report with an empty app list (only unknown ids offered) may be sent or not", "lost-event count for a single-event report covering several apps: 1 or one per app"], c10_batches),
         def("C11", "up to 4 handle clones issuing up to 6 requests released inside in-flight operations (timer waits, HTTP exchanges, policy questions, plan creation, install steps, reboot wait) with batch readiness so select! order (a seeded decision) matters; handles and stream dropped at drawn moments; interval-style oracle on global sequence numbers; a case is one request; distinct = (reply, options)", vec!["a request left unanswered when the run is cut is not judged", "wake-up without timer is judged in a profile whose timers are >= 10 h away and whose operation latencies are < 1 min"], c11_batches),
         def("C12", "check timings over {wall, monotonic, both} x {minimum wait or none}; timers fire late and in any order; throttled iterations; reboot waits with pings; a case is one wait; distinct = timing shape", vec!["timers never fire early"], c12_batches),
         def("C08", "histories of checks and reboot-wait pings over all outcome classes on a disk with a volatile write cache; probe restart after every commit; real crashes at drawn interactions with rebuild; a case is one check/ping outcome; distinct = (ground-truth outcome, announced result class)", vec!["commit is atomic; reads see uncommitted writes (Storage contract)", "which clock reading inside the check becomes the last-contact time is left open"], c08_batches),
